@@ -4,4 +4,16 @@ go 1.23.0
 
 require github.com/moov-io/ach v0.0.0
 
+require (
+	github.com/igrmk/treemap/v2 v2.0.1 // indirect
+	github.com/moov-io/base v0.54.3 // indirect
+	github.com/moov-io/iso3166 v0.2.1 // indirect
+	github.com/moov-io/iso4217 v0.3.2 // indirect
+	github.com/rickar/cal/v2 v2.1.22 // indirect
+	golang.org/x/exp v0.0.0-20240707233637-46b078467d37 // indirect
+	golang.org/x/net v0.39.0 // indirect
+	golang.org/x/sync v0.13.0 // indirect
+	golang.org/x/text v0.24.0 // indirect
+)
+
 replace github.com/moov-io/ach => /repo
